@@ -15,19 +15,27 @@ PROP = dict(
          'the string or of a group, directly followed by an atom, a blocker, an all-of group, an any-of group or another '
          'conditional, with the owner\'s flag on / off / undeclared, and sprinkled at item boundaries of ordinary texts); '
          'the dependency trees handed to Coq are the PMS readings of the files (harness reference grammar, tied to the text '
-         'token by token inside Coq: texts_ok), not the trees of the decoder under test; directories are created in a random order and the '
+         'token by token inside Coq: texts_ok), not the trees of the decoder under test; the package DATABASE of a case is the '
+         'generator\'s own (names cut from PF by the harness per PMS 3.2, slot keys from the SLOT text before "/", both re-checked inside '
+         'Coq: db_tied), one name in five with hyphen-digit groups / plus / underscore / -r<n> pieces, one version in five from the '
+         'whole 3.2 syntax, SLOT with sub-slot and varying white space; directories are created in a random order and the '
          'tree is built a second time in the reverse order on tmpfs. '
          'Non-trivial: the selection has at least 2 members beyond the requested atoms or the run fails; '
          'distinct by the whole input (dependency graph, USE assignment, request)',
     explanation='theorems about the Gallina model of the resolver (Roots, Closed, Justified, Unblocked, '
                 'unique readability of dependency strings, empty groups contribute nothing, '
+                'the loader view of a database is the database, PF is cut one way, '
                 'must-fail, failure-has-a-reason, termination with fuel = packages+1 for every input, independence '
                 'of the enumeration order, @system set); per case Coq evaluates wf, model=observation (in-process '
-                'API, stagemaker -list system/stage, and -list stage on a re-ordered copy) and spec(observation)',
+                'API, stagemaker -list system/stage, -list stage on a re-ordered copy, what GetInstalledPackageList returned and '
+                'what Readdirnames listed) and spec(observation)',
     assumptions=['the group structure of a dependency string is read by the harness (PMS 8.2 grammar) and checked against '
                  'the text inside Coq (C05.tie); a text outside the grammar keeps the decoder\'s own answer (C14 owns it)',
                  'atom parsing (C14) and atom matching (C13) enter as oracles computed by the real code: every atom '
                  'carries the package name the parser gave it and the installed packages DependAtom.FilterAtoms '
-                 'accepts in the owning package\'s USE context',
+                 'accepts in the owning package\'s USE context (ctxUse = that package\'s GetUseFlagMap()); the objects are the '
+                 'loader\'s (a substitute built with package atom\'s constructors for a directory the loader lost); which '
+                 'directories exist, their names, slots and collisions are the harness\'s own reading of its input',
+                 'the ORDER of fs.Readdirnames is an oracle (c_enum); its membership is observed (o_listed)',
                  'the kernel resolves paths as Model.Profile.walk does (symbolic links expanded in place)'],
 )
